@@ -100,6 +100,10 @@ def _run_job(job):
             rec = model_record(ex, r.model, job['harness'], job['params'])
         results.append({'kind': obl.kind, 'label': obl.label, 'pos': obl.pos, 'verdict': r.verdict, 'detail': r.detail,
                         't': round(r.t, 4), 'queries': r.queries, 'record': rec})
+    if any(x['verdict'] not in ('unsat', 'reach-ok') for x in results):
+        for m in ex.candidates:
+            results.append({'kind': 'candidate', 'label': 'witness of an unpinned value', 'pos': '', 'verdict': 'sat-candidate', 'detail': '',
+                            't': 0.0, 'queries': 0, 'record': model_record(ex, m, job['harness'], job['params'])})
     return {
         'job': job, 'results': results, 'wall': time.time() - t0, 'exec_s': texec,
         'stats': dict(ex.stats), 'dstats': dict(d.stats), 'funcs': sorted(ex.funcs_used),
